@@ -388,5 +388,9 @@ def simp(t, assume, memo=None):
             r = parts
     else:
         r = tuple(simp(x, assume, memo) if isinstance(x, tuple) else x for x in t)
+        if h in ('found', 'any') and r[-1] == FALSE:
+            r = FALSE
+        elif h == 'all' and r[-1] == TRUE:
+            r = TRUE
     memo[t] = r
     return r
